@@ -29,6 +29,7 @@ RULE = ("cases: seeded surfaces in phreeqc.dat and (one in four) wateq4f.dat wit
 ASSUME = ["physical constants are the manual's / engine's (F = 96493.5, R = 8.3147, eps0 = 8.854e-12)", "surface-species activities follow the mole-fraction convention the manual defines; "
           "all database species are monodentate so the convention cancels inside each reaction", "CD-MUSIC with Hfo: only the site balance (the database gives no charge-distribution parameters for Hfo); one case in eight uses a goethite-like CD-MUSIC surface defined in the input and judges the two capacitor laws and the site balance",
           "runs that report an error are inconclusive",
+          "with an explicit Donnan layer (-donnan, -only_counter_ions) the Gouy-Chapman relation is judged at 1e-6 relative instead of 1e-8: the layer's composition is iterated separately (measured residual 3e-7 near the point of zero charge)",
           "site balances carry an absolute floor of 1e-14 mol next to 1e-8 relative: the solver accepts a balance whose absolute residual is below KNOBS -tolerance (1e-15) whatever the total (model.cpp, residuals())"]
 
 F_C = 96493.5
@@ -373,13 +374,14 @@ def run_case(ctx, case):
                 findings.append(("C20/sigma-readout/%s" % model, "%s: EDL sigma = %.12g C/m2, from species charges %.12g" % (case["id"], d["sigma"], sig_species)))
             if abs(d["charge"] - q) > 1e-8 * max(abs(q), 1e-15) + 1e-12 * qabs:
                 findings.append(("C20/charge-readout/%s" % model, "%s: EDL charge = %.12g eq, from species %.12g" % (case["id"], d["charge"], q)))
-        if model == "ddl":
+        if model in ("ddl", "donnan", "donnan_debye", "counter_only"):      # the Donnan options keep the Gouy-Chapman relation between the surface charge and psi; only the layer's content is modelled differently
             gc = math.sqrt(8000.0 * eps * EPS0 * R_J * tk * mu) * math.sinh(F_C * psi / (2.0 * R_J * tk))
             nchk += 1
             rel = abs(gc - sig_species) / max(abs(gc), abs(sig_species), 1e-30)
             worst_sig = max(worst_sig, rel)
-            if abs(gc - sig_species) > 1e-8 * max(abs(gc), abs(sig_species)) + 1e3 * sig_floor and abs(sig_species) > 1e-12:      # the solver fixes the net charge to about 1e-9 of the charged sites
-                findings.append(("C20/gouy-chapman", "%s: sigma from species %.12g C/m2, Gouy-Chapman at psi = %.9g V, I = %.6g, eps = %.6g, T = %.2f K gives %.12g (relative %.2e)" % (
+            gtol = 1e-8 if model == "ddl" else 1e-6      # with an explicit Donnan layer the charge balance closes over the layer's content, which is iterated to its own tolerance (measured: 3e-7 near the point of zero charge)
+            if abs(gc - sig_species) > gtol * max(abs(gc), abs(sig_species)) + 1e3 * sig_floor and abs(sig_species) > 1e-12:      # the solver fixes the net charge to about 1e-9 of the charged sites
+                findings.append(("C20/gouy-chapman" + ("" if model == "ddl" else "/" + model), "%s: sigma from species %.12g C/m2, Gouy-Chapman at psi = %.9g V, I = %.6g, eps = %.6g, T = %.2f K gives %.12g (relative %.2e)" % (
                     case["id"], sig_species, psi, mu, eps, tk, gc, rel)))
         if model == "ccm":
             nchk += 1
